@@ -206,6 +206,11 @@ pub fn gen_apps(rng: &mut Rng, n: usize) -> Vec<AppSpec> {
     } else if apps.len() >= 2 && rng.chance(1, 10) {
         // one id a strict prefix of another
         apps[1].id = format!("{}x", apps[0].id);
+    } else if apps.len() >= 2 && rng.chance(1, 20) {
+        // an id that is fine in a JSON body but cannot be put into an HTTP header (never the first app: the
+        // update check itself stays buildable)
+        let k = 1 + rng.usize(apps.len() - 1);
+        apps[k].id = format!("{}\n", apps[k].id);
     }
     apps
 }
